@@ -75,6 +75,16 @@ prop = [json.loads(l) for l in open(os.path.join(VERIF, "properties.jsonl")) if 
 files = [f for f in prop["anchors"]["files"] if f.endswith(".cpp")]
 if "--files" in sys.argv:
     files = sys.argv[sys.argv.index("--files") + 1].split(",")
+# listed findings are excluded by construction, exactly as bin/check does it (otherwise every worker stops at the first one)
+known = []
+kf = os.environ.get("VERIF_KNOWN_FILE") or os.path.join(VERIF, "KNOWN_FINDINGS.txt")
+if os.path.exists(kf):
+    for line in open(kf):
+        if line.startswith("finding:"):
+            kv = dict(x.split("=", 1) for x in line[8:].split()[:2] if "=" in x)
+            if kv.get("property") == pid and "key" in kv:
+                known.append(kv["key"])
+os.environ.setdefault("VERIF_KNOWN", ",".join(known))
 wd = os.path.join(VERIF, ".work", "cov-" + pid)
 shutil.rmtree(wd, ignore_errors=True)
 os.makedirs(wd)
